@@ -26,7 +26,7 @@ theorem no_report_of_unfinished {st : Name → RS} {ev : List Ev} (hc : CountOK 
 
 /-- node `n` (its generator is exhausted) changes its status from an unfinished one with the matching event -/
 theorem core_status {inp : Input} {s : Sys} {n : Name} {nd : Node} (h : ObeyCore inp s) (hn : s.nodes n = some nd)
-    (hu : nd.status.finished = false) (hpc : nd.pc = .done) (st' : RS) (e : Ev)
+    (hu : nd.status.finished = false) (hpc : nd.pc = .done) (hld : nd.task.loader = none) (st' : RS) (e : Ev)
     (hok : st' = .ok → e = .success n) (hutd : st' = .utd → e = .skipUtd n) (hrun : st' = .run → e = .start n)
     (hob : obeyOK (nodeDeps s) inp.noAct (e :: s.events) = true) (hut : utdOK inp.utd (e :: s.events) = true) :
     ObeyCore inp { setNode s n { nd with status := st' } with events := e :: s.events } := by
@@ -56,7 +56,7 @@ theorem core_status {inp : Input} {s : Sys} {n : Name} {nd : Node} (h : ObeyCore
     split at hk
     · cases hk
       have hg := h.node n nd hn
-      exact NodeG.mono (nd := { nd with status := st' }) ⟨hg.1, hg.2.1, fun _ => hpc⟩ hm
+      exact NodeG.mono (nd := { nd with status := st' }) ⟨hg.1, hg.2.1, fun _ => ⟨hpc, hld⟩⟩ hm
     · exact (h.node k nd' hk).mono hm
   · intro d hd'
     rw [hst] at hd'
@@ -87,7 +87,7 @@ theorem core_nodeStep {inp : Input} {s : Sys} {n : Name} {nd : Node} (h : ObeyCo
     have hni : ¬ ∃ ds, nd.pc = .taskIter ds := by rw [hpc]; intro ⟨_, e⟩; cases e
     have h0 : nd.status = .none := hg.st_none (by rw [hpc]; intro e; cases e)
     split
-    · exact core_setNode h hn rfl rfl (nodeG_pc .done hg hni (fun e => by cases e) (fun _ => rfl))
+    · exact core_setNode h hn rfl rfl (nodeG_pc .done hg hni (fun e => by cases e) (fun e => absurd h0 e))
     · exact core_setNode h hn rfl rfl (nodeG_pc .loopTop hg hni (fun e => by cases e) (fun e => absurd h0 e))
   | loopTop =>
     have h0 : nd.status = .none := hg.st_none (by rw [hpc]; intro e; cases e)
@@ -115,11 +115,12 @@ theorem core_nodeStep {inp : Input} {s : Sys} {n : Name} {nd : Node} (h : ObeyCo
     simp only [hl hpc]
     have hni : ¬ ∃ ds, nd.pc = .taskIter ds := by rw [hpc]; intro ⟨_, e⟩; cases e
     have h0 : nd.status = .none := hg.st_none (by rw [hpc]; intro e; cases e)
-    exact core_setNode h hn rfl rfl (nodeG_pc .self1 hg hni (fun _ => (ha.node n nd hn).1.2 hpc) (fun e => absurd h0 e))
+    exact core_setNode h hn rfl rfl (nodeG_pc .self1 hg hni
+      (fun _ => ⟨((ha.node n nd hn).1.2 hpc).1, ((ha.node n nd hn).1.2 hpc).2, hl hpc⟩) (fun e => absurd h0 e))
   | self1 =>
     have hni : ¬ ∃ ds, nd.pc = .taskIter ds := by rw [hpc]; intro ⟨_, e⟩; cases e
     exact (core_setNode (x := { nd with pc := .done }) h hn rfl rfl
-      (nodeG_pc .done hg hni (fun e => by cases e) (fun _ => rfl))).congr rfl rfl
+      (nodeG_pc .done hg hni (fun e => by cases e) (fun _ => ⟨rfl, (hg.2.1 hpc).2.2⟩))).congr rfl rfl
   | done => exact h.congr rfl rfl
 
 /-! ### the loader section -/
@@ -275,14 +276,14 @@ theorem core_handBack {inp : Input} {s s' : Sys} {n : Name} {perm : List Name} (
 
 theorem core_selectStep {inp : Input} {s s' : Sys} {n : Name} {perm : List Name} (h : ObeyCore inp s)
     (ha : AfterInv inp s)
-    (hy : ∀ nd, s.nodes n = some nd → nd.pc = .done ∧ nd.pend = [] ∧ nd.waitRun = [])
+    (hy : ∀ nd, s.nodes n = some nd → nd.pc = .done ∧ nd.pend = [] ∧ nd.waitRun = [] ∧ nd.task.loader = none)
     (hs : selectStep inp s n perm = some s') : ObeyCore inp s' := by
   unfold selectStep at hs
   cases hn : s.nodes n with
   | none => simp only [hn] at hs; cases hs; exact h.congr rfl rfl
   | some nd =>
     simp only [hn] at hs
-    obtain ⟨hpc, hpend, hwait⟩ := hy nd hn
+    obtain ⟨hpc, hpend, hwait, hld⟩ := hy nd hn
     split at hs
     · cases hs; exact h.congr rfl rfl
     · rename_i hst
@@ -295,19 +296,19 @@ theorem core_selectStep {inp : Input} {s s' : Sys} {n : Name} {perm : List Name}
       split at hs
       · refine core_handBack ?_ hs
         unfold failSys
-        refine (core_status h hn hu hpc .fail (.unmet n) (fun e => by cases e) (fun e => by cases e)
+        refine (core_status h hn hu hpc hld .fail (.unmet n) (fun e => by cases e) (fun e => by cases e)
           (fun e => by cases e) ?_ (by simp only [utdOK]; exact h.utd)).congr rfl rfl
         simp only [obeyOK, hnoS, hnoR, h.obey]; rfl
       · rename_i hbad
         split at hs
         · rename_i hutd
           refine core_handBack ?_ hs
-          refine (core_status h hn hu hpc .utd (.skipUtd n) (fun e => by cases e) (fun _ => rfl)
+          refine (core_status h hn hu hpc hld .utd (.skipUtd n) (fun e => by cases e) (fun _ => rfl)
             (fun e => by cases e) ?_ (by simp only [utdOK, hutd, h.utd]; rfl)).congr rfl rfl
           simp only [obeyOK, hnoS, hnoR, h.obey]; rfl
         · rename_i hutd
           cases hs
-          refine (core_status h hn hu hpc .run (.start n) (fun e => by cases e) (fun e => by cases e)
+          refine (core_status h hn hu hpc hld .run (.start n) (fun e => by cases e) (fun e => by cases e)
             (fun _ => rfl) ?_ (by simp only [utdOK, hutd, h.utd]; rfl)).congr rfl rfl
           have hdeps : (nodeDeps s n).all
               (fun d => s.events.any (fun e => e = .success d || e = .skipUtd d)) = true := by
@@ -343,7 +344,8 @@ theorem core_finishStep {inp : Input} {s s' : Sys} {n : Name} {perm : List Name}
       · rename_i hst
         have hrun : nd.status = .run := by simpa using hst
         have hu : nd.status.finished = false := by rw [hrun]; rfl
-        have hpc : nd.pc = .done := (h.node n nd hn).2.2 (by rw [hrun]; intro e; cases e)
+        have hpc : nd.pc = .done := ((h.node n nd hn).2.2 (by rw [hrun]; intro e; cases e)).1
+        have hld : nd.task.loader = none := ((h.node n nd hn).2.2 (by rw [hrun]; intro e; cases e)).2
         have hs0 : stOf s n = .run := by simp [stOf, hn, hrun]
         have hsu : (stOf s n).finished = false := by rw [hs0]; rfl
         have hnoR := no_report_of_unfinished ha.cnt hsu
@@ -351,12 +353,12 @@ theorem core_finishStep {inp : Input} {s s' : Sys} {n : Name} {perm : List Name}
         have qf : ObeyCore inp { failSys inp s n nd (.failure n) (if s.final = 2 then 2 else 1) with
                                  running := s.running.filter (· ≠ n) } := by
           unfold failSys
-          refine (core_status h hn hu hpc .fail (.failure n) (fun e => by cases e) (fun e => by cases e)
+          refine (core_status h hn hu hpc hld .fail (.failure n) (fun e => by cases e) (fun e => by cases e)
             (fun e => by cases e) ?_ (by simp only [utdOK]; exact h.utd)).congr rfl rfl
           simp only [obeyOK, hnoR, hS, h.obey]; simp
         have qs : ObeyCore inp { setNode s n { nd with status := .ok } with
                                  events := Ev.success n :: s.events, running := s.running.filter (· ≠ n) } := by
-          refine (core_status h hn hu hpc .ok (.success n) (fun _ => rfl) (fun e => by cases e)
+          refine (core_status h hn hu hpc hld .ok (.success n) (fun _ => rfl) (fun e => by cases e)
             (fun e => by cases e) ?_ (by simp only [utdOK]; exact h.utd)).congr rfl rfl
           simp only [obeyOK, hnoR, hS, h.obey]; simp
         split at hs
